@@ -114,6 +114,8 @@ namespace sim
     std::vector<uint32_t> script;
     std::string oracle;       // "", "stateless"
     bool engine_model = false;
+    int alloc_recycle = 0;    // address recycling by the simulated allocator (see simalloc.cc)
+    bool cold = false;        // meant to be the first thing a process does: never executed twice in one process
     std::vector<std::string> probes;        // labels the generator attaches
   };
 
@@ -166,6 +168,8 @@ namespace sim
   void alloc_disarm();
   unsigned long alloc_count();
   bool alloc_fired();
+  void alloc_recycle(int mode);      // 1: freed blocks are reused by the next request of their size (plain flavour)
+  unsigned long alloc_recycled();
 
   // misc helpers
   std::string hexd(double v);
